@@ -486,6 +486,9 @@ func finish(c *Ctx, def *PropDef, m *Part, wall time.Duration) int {
 		}
 	}
 	repDir := filepath.Join(c.Root, "replays", c.Prop)
+	if d := os.Getenv("VERIF_REPLAY_DIR"); d != "" {
+		repDir = filepath.Join(d, c.Prop) // mutant / seed runs keep their artefacts out of /verif
+	}
 	var vlist []map[string]any
 	for i, s := range newViol {
 		v := m.Viols[s]
@@ -547,8 +550,12 @@ func finish(c *Ctx, def *PropDef, m *Part, wall time.Duration) int {
 		"violations":  len(newViol),
 	}
 	b, _ := json.MarshalIndent(ev, "", " ")
-	os.MkdirAll(filepath.Join(c.Root, "evidence"), 0o755)
-	if err := os.WriteFile(filepath.Join(c.Root, "evidence", c.Prop+".json"), b, 0o644); err != nil {
+	evDir := filepath.Join(c.Root, "evidence")
+	if d := os.Getenv("VERIF_EVIDENCE_DIR"); d != "" {
+		evDir = d
+	}
+	os.MkdirAll(evDir, 0o755)
+	if err := os.WriteFile(filepath.Join(evDir, c.Prop+".json"), b, 0o644); err != nil {
 		fmt.Println("HARNESS-ERROR:", err)
 		return 2
 	}
